@@ -19,7 +19,7 @@ RULE = ('cases = (program R^N->R^M, recording point & kind, evaluation point != 
 ASSUMPTIONS = ['reference derivatives by forward propagation of the same program (C01/C02/C07-validated) and exact rational arithmetic for polynomial programs',
                'tolerance 1e-8 relative']
 
-KINDS = ['ew', 'ew', 'bin', 'bin', 'binc', 'getitem', 'sum', 'dot', 'dotc', 'prod', 'buffer', 'buffer', 'reshape', 'outer', 'linalg']
+KINDS = ['ew', 'ew', 'bin', 'bin', 'binc', 'getitem', 'sum', 'dot', 'dotc', 'prod', 'buffer', 'buffer', 'bufferconst', 'reshape', 'outer', 'linalg']
 
 
 def make_case(rng, tier):
@@ -34,7 +34,7 @@ def make_case(rng, tier):
         else:
             prog['steps'].append({'op': 'reshape', 'a': prog['out'], 'shape': [n], 'how': 'fn'})
             prog['out'] += 1 if False else 0
-            prog['out'] = len(prog['inputs']) + sum(1 for s in prog['steps'] if s['op'] not in ('setitem', 'setbc')) - 1
+            prog['out'] = len(prog['inputs']) + sum(1 for s in prog['steps'] if s['op'] not in ('setitem', 'setbc', 'setconst')) - 1
             prog['out_shape'] = [n]
     rec_kind = rng.choice(['nd', 'ut'])
     D, P = rng.randint(1, 3), rng.randint(1, 2)
